@@ -215,8 +215,11 @@ def tridonic_case(seed, part, i, res):
     # every fourth history has company: a second Tridonic gateway (second bus, second driver instance) whose reports arrive
     # at the very same instants; each instance's subscribers hear their own bus only
     twin = i % 4 == 3
-    sim = simlib.Sim("tridonic", picker, dev_inst_map=dmap, register_callbacks=False,
+    # every fifth history: the application hands the driver its instance map only once the connection is up
+    late_map = i % 5 == 2
+    sim = simlib.Sim("tridonic", picker, dev_inst_map=None if late_map else dmap, register_callbacks=False,
                      answer2=(lambda w_, v_, i_, dt_: None) if twin else None)
+    dup_log = []
     # ... and every third starts with traffic the gateway reports while the driver is still shaking hands with it
     early = i % 3 == 1
     twin_log = []
@@ -289,7 +292,16 @@ def tridonic_case(seed, part, i, res):
             rep = W.tridonic_report(W.TRI_OBSERVE, W.TRI_16, value, 0)
             w.at(tt, lambda rep=rep: dev.rx.append(rep) if dev.fd is not None else early_lost.append(1))
         await sim.connect()
+        if late_map:
+            d.dev_inst_map = dmap
+            res.hit("map_assigned_after_connect")
         handles = {}
+        # one callable subscribed twice (two parts of an application sharing a recorder): two subscriptions, each with its own
+        # handle; dropping one leaves the other
+        def recorder(drv, c, rsp, e):
+            dup_log.append((w.now, c, rsp, e))
+        dup_handles = [d.bus_traffic.register(recorder), d.bus_traffic.register(recorder)]
+        w.at(segs[0], lambda: dup_handles[0].unregister())
 
         def join(k):
             def cb(drv, c, rsp, e, k=k):
@@ -452,6 +464,18 @@ def tridonic_case(seed, part, i, res):
                 res.violation("C20/tridonic/subscriber-delivery", f"subscriber {k} (joined at {lo}, left at {hi}) received {len(got_k)} reports, "
                               f"{len(want_k)} were made in that interval", {**wit, "subscriber": k})
                 return
+        res.hit("same_callable_subscribed_twice")
+        t_drop = segs[0]
+        want_dup = []
+        for z in base_log:
+            if z[0] < 0.9:
+                continue                     # reports made during the handshake, before the recorder existed
+            want_dup += norm([z]) * (2 if z[0] < t_drop else 1)
+        got_dup = norm([z for z in dup_log if z[0] >= 0.9])
+        if got_dup != want_dup:
+            res.violation("C20/tridonic/subscriber-delivery/same-callable-twice", f"a callable subscribed twice (first subscription dropped at "
+                          f"{t_drop}) received {len(got_dup)} calls, {len(want_dup)} expected (two per report before, one after)", wit)
+            return
         if twin:
             seen2 = [c.frame.as_integer for (_t, drv, c) in twin_log]
             if any(drv is not sim.driver2 for (_t, drv, c) in twin_log) or seen2 != twin_sent:
